@@ -182,9 +182,11 @@ def _update_tree (force_dpid = None):
   # Now modify ports as needed
   try:
     change_count = 0
-    for sw, ports in tree.items():
-      con = core.openflow.getConnection(sw)
-      if con is None: continue # Must have disconnected
+    # Go through all switches, not just the ones on the tree: a switch
+    # without any (bidirectional) link still has ports to (re-)enable.
+    for con in core.openflow.connections:
+      sw = con.dpid
+      ports = tree.get(sw, ())
       if con.connect_time is None: continue # Not fully connected
 
       if _hold_down:
